@@ -88,6 +88,11 @@ def random_part_cfgs(tier, base_id=200000):
                 lo = [rnd.uniform(-100, 100) for _ in range(D)] if rep >= 2 and rep % 3 == 0 else None
                 b = box if lo is None else [[lo[x], lo[x] + abs(rnd.gauss(0, 10)) + 1e-3] for x in range(D)]
                 cfgs.append({"id": i, "kind": kind, "K": K, "D": D, "box": b, "seed": rnd.randrange(1 << 30), "nops": rnd.randint(4, 14), "maxcells": 160 if kind != "dbin" else 220, "force_endpoints": force, "p_deepen": rnd.choice([0.1, 0.3, 0.6])})
+    # domains written as [[lo, hi]] * d (the inner list is one object): a copy that keeps the aliasing must not be written in place
+    for (kind, K) in A.PART_KINDS:
+        for D in (2, 3):
+            i += 1
+            cfgs.append({"id": i, "kind": kind, "K": K, "D": D, "box": [[-1.0, 3.0]] * D, "alias_dom": True, "seed": rnd.randrange(1 << 30), "nops": 8, "maxcells": 150, "p_deepen": 0.3})
     # the ends of the float range (every finite box lo < hi): tiny, subnormal, huge, a few ulps wide
     EXT = [[[1e-300, 2e-300]], [[5e-324, 5e-323]], [[-1e150, 1e150]], [[1.0, 1.0 + 2.0 ** -40]], [[-1e-310, 1e-310]], [[1e15, 1e15 + 1.0]], [[-3e-5, 7e200]],
            [[1e-300, 3e-300], [-1e100, 1e100]], [[0.0, 5e-324], [1.0, 2.0]]]
@@ -128,7 +133,8 @@ def algo_cfgs(tier, base_id=300000, algos=None, n=100):
                 prm = dict(ALGO_PRM.get(algo, {}))
                 if algo in ("POO", "GPO"):
                     prm["base"] = rnd.choice(["T_HOO", "HCT", "VHCT"])
-                cfgs.append({"id": i, "algo": algo, "kind": kind, "K": K, "D": D, "box": box, "n": n, "T": n, "prm": prm, "pattern": rnd.choice(["noisy", "neg", "tied", "const", "peak"]), "seed": rnd.randrange(1 << 30)})
+                cfgs.append({"id": i, "algo": algo, "kind": kind, "K": K, "D": D, "box": box, "n": n, "T": n, "prm": prm, "pattern": rnd.choice(["noisy", "neg", "tied", "const", "peak"]), "seed": rnd.randrange(1 << 30),
+                             "alias_dom": D >= 2 and all(b == box[0] for b in box)})
     return cfgs
 
 
